@@ -416,6 +416,14 @@ def run_check(comp, tier: str, seed: int, replay: str | None = None) -> int:
     def real_and_monitor(c: str) -> list[str]:
         return safe_monitor(comp, c, guarded(comp.run_real, c))
 
+    def search_monitor(c: str) -> list[str]:
+        """for NEIGHBOURS made by `mutate` / `shrink` during a failing-input search: a neighbour the component's own parser
+        refuses (`bad-case`, an input that cannot be built) is the search's product, not an observation of the code"""
+        out = guarded(comp.run_real, c)
+        if out == "bad-case" or out.startswith(("bad-", "input-build-failed", "harness-error")):
+            return []
+        return [s for s in safe_monitor(comp, c, out) if "no-observation:bad-case" not in s]
+
     # 5a. monitor failures = the property fails on the real code for that input
     for sig, idxs in sorted(failures.items()):
         if sig in known_sigs:
@@ -456,13 +464,13 @@ def run_check(comp, tier: str, seed: int, replay: str | None = None) -> int:
             base = srng.choice(pool)
             cand = comp.mutate(srng, base)
             searched += 1
-            sigs = [s for s in real_and_monitor(cand) if s not in known_sigs]
+            sigs = [s for s in search_monitor(cand) if s not in known_sigs]
             if sigs:
                 found = (cand, sigs[0])
                 break
         if found:
             cand, sig = found
-            cand = shrink_case(comp, cand, lambda c: sig in real_and_monitor(c))
+            cand = shrink_case(comp, cand, lambda c: sig in search_monitor(c))
             cand_real = guarded(comp.run_real, cand)
             p = write_replay(pid, "violation", {
                 "property": pid, "kind": "property-fails-on-implementation", "signature": sig, "case": cand,
@@ -490,13 +498,13 @@ def run_check(comp, tier: str, seed: int, replay: str | None = None) -> int:
         for _ in range(n_search):
             cand = comp.mutate(srng, srng.choice(cases))
             searched += 1
-            sigs = [s_ for s_ in real_and_monitor(cand) if s_ not in known_sigs]
+            sigs = [s_ for s_ in search_monitor(cand) if s_ not in known_sigs]
             if sigs:
                 found = (cand, sigs[0])
                 break
         if found:
             cand, sig = found
-            cand = shrink_case(comp, cand, lambda c: sig in real_and_monitor(c))
+            cand = shrink_case(comp, cand, lambda c: sig in search_monitor(c))
             cand_real = guarded(comp.run_real, cand)
             p = write_replay(pid, "violation", {
                 "property": pid, "kind": "property-fails-on-implementation", "signature": sig, "case": cand,
